@@ -152,14 +152,20 @@ func (s *h) releaseFx() {
 	s.slow.mu.Unlock()
 }
 
-// parkProbe bounds the waits that decide "this goroutine is held up by the parked request".  The decision itself does not
-// rest on the timer on the unchanged code: blockedIn observes the goroutine waiting for the breaker's lock inside the named
-// method (deterministic, whatever the CPU load); the timer only ends the wait on code where neither an answer nor that
-// wait shows up.
+// parkProbe bounds the waits that decide "this goroutine is held up by the parked request".  On the unchanged code (the
+// parked request holds the breaker's lock) the held-up goroutine never answers, so the outcome of a wait is "blocked"
+// whether it ends by the timer or earlier; blockedOnLock is only an accelerator (and a guard against CPU starvation): it
+// looks for goroutines that are inside the *exported* entry point named and wait for a sync lock — stdlib names and the
+// package's exported API only, never an unexported name of the code under test.  When it sees nothing the timer decides.
 const parkProbe = 250 * time.Millisecond
 
-// blockedIn counts the goroutines that are waiting for a sync.RWMutex inside cbreaker.(*CircuitBreaker).<method>.
-func blockedIn(method string) int {
+var probeFallbacks int64 // waits that ended by the timer (reported on stderr at exit, never in an output line)
+
+// blockedOnLock counts the goroutines inside cbreaker.(*CircuitBreaker).<entry> that are waiting for a mutex.
+func blockedOnLock(entry string) int {
+	if os.Getenv("C05_NO_STACK_PROBE") != "" { // self-test of the timer path
+		return 0
+	}
 	buf := make([]byte, 1<<20)
 	for {
 		n := runtime.Stack(buf, true)
@@ -171,16 +177,24 @@ func blockedIn(method string) int {
 	}
 	cnt := 0
 	for _, g := range strings.Split(string(buf), "\n\n") {
-		if strings.Contains(g, "cbreaker.(*CircuitBreaker)."+method+"(") && strings.Contains(g, "sync.(*RWMutex).") {
+		nl := strings.IndexByte(g, '\n')
+		if nl < 0 {
+			continue
+		}
+		hdr := g[:nl]
+		if !(strings.Contains(hdr, "semacquire") || strings.Contains(hdr, "sync.Mutex") || strings.Contains(hdr, "sync.RWMutex")) {
+			continue
+		}
+		if strings.Contains(g, "cbreaker.(*CircuitBreaker)."+entry+"(") {
 			cnt++
 		}
 	}
 	return cnt
 }
 
-// waitAnswerOrBlocked waits until done() reports an answer (true), or n goroutines are seen blocked in method (false),
-// or parkProbe has passed (false).
-func waitAnswerOrBlocked(done func() bool, method string, n int, bound ...time.Duration) bool {
+// waitAnswerOrBlocked waits until done() reports an answer (returns true), or n goroutines are seen waiting for a lock inside
+// entry, or the bound has passed (both: returns false = "held up").
+func waitAnswerOrBlocked(done func() bool, entry string, n int, bound ...time.Duration) bool {
 	d := parkProbe
 	if len(bound) > 0 {
 		d = bound[0]
@@ -190,7 +204,11 @@ func waitAnswerOrBlocked(done func() bool, method string, n int, bound ...time.D
 		if done() {
 			return true
 		}
-		if blockedIn(method) >= n || time.Now().After(deadline) {
+		if blockedOnLock(entry) >= n {
+			return done()
+		}
+		if time.Now().After(deadline) {
+			atomic.AddInt64(&probeFallbacks, 1)
 			return done()
 		}
 		if i < 20 {
@@ -414,7 +432,7 @@ func (s *h) op(f []string, line *string) string {
 				default:
 					return entered
 				}
-			}, "isStandby", 1)
+			}, "ServeHTTP", 1)
 			if answered {
 				if entered {
 					return "pass"
@@ -584,23 +602,18 @@ func (s *h) op(f []string, line *string) string {
 		if waitAnswerOrBlocked(chanClosed(probed), "String", 1) {
 			return "finish2-lock-not-held"
 		}
-		// each completing request must be seen waiting for the lock in timeToCheck, i.e. after its metrics.Record
+		// each completing request runs metrics.Record and then waits for the lock the parked request holds: it is seen waiting for
+		// a mutex inside ServeHTTP (its handler has returned; the other in-flight requests wait on channels), or the timer passes
 		s.shadow.Record(c1, clock.Now().UTC().Sub(f1.start))
 		f1.release <- c1
-		if waitAnswerOrBlocked(chanClosed(f1.done), "timeToCheck", 1, 3*time.Second) {
+		if waitAnswerOrBlocked(chanClosed(f1.done), "ServeHTTP", 1) {
 			return "finish2-first-not-blocked"
-		}
-		if blockedIn("timeToCheck") < 1 {
-			return "finish2-inconclusive"
 		}
 		s.shadow.Record(c2, clock.Now().UTC().Sub(f2.start))
 		orc := s.oracle()
 		f2.release <- c2
-		if waitAnswerOrBlocked(chanClosed(f2.done), "timeToCheck", 2, 3*time.Second) {
+		if waitAnswerOrBlocked(chanClosed(f2.done), "ServeHTTP", 2) {
 			return "finish2-second-not-blocked"
-		}
-		if blockedIn("timeToCheck") < 2 {
-			return "finish2-inconclusive"
 		}
 		pid := s.parkedID
 		pf := s.flights[pid]
@@ -669,6 +682,11 @@ func (echoH) Op(f []string) string { return strings.Join(f, " ") + "\tno-scenari
 func (echoH) Close()               {}
 
 func main() {
+	defer func() {
+		if n := atomic.LoadInt64(&probeFallbacks); n > 0 {
+			fmt.Fprintf(os.Stderr, "c05: %d lock probes ended by the timer\n", n)
+		}
+	}()
 	annotate = len(os.Args) > 1 && os.Args[1] == "annotate"
 	hx.Main(func(cfg []string) (hx.Handler, string) {
 		echo := "ok"
